@@ -903,13 +903,13 @@ GROUPS["p14"] += [
 ]
 
 # C03/C05/C12: run_on_chunk hands back chunk-relative spans; the stand-alone rule path pushes them back by the first
-# token's start (the shape of seeded/C03-e) / by the chunk span's start (correct)
+# LAST token's end (wrong; seeded/C03-e used the first token's start, which is equal for ordered tokens and is left undecided) / by the chunk span's start (correct)
 _PL = "harper-core/src/linting/pattern_linter.rs"
 _LGF = "harper-core/src/linting/lint_group.rs"
 def _rel(bad):
     sfx = "" if bad else "-ok"
-    base = "first.span.start" if bad else "chunk_span.start"
-    intro = "            let Some(first) = chunk.first() else {\n                continue;\n            };\n" if bad else "            let Some(chunk_span) = chunk.span() else {\n                continue;\n            };\n"
+    base = "first.span.end" if bad else "chunk_span.start"
+    intro = "            let Some(first) = chunk.last() else {\n                continue;\n            };\n" if bad else "            let Some(chunk_span) = chunk.span() else {\n                continue;\n            };\n"
     return [
         E("c03-relative-spans-callee%s" % sfx, ["C03", "C05", "C12"], _PL,
           "    let mut lints = Vec::new();\n    let mut tok_cursor = 0;\n",
